@@ -137,7 +137,8 @@ where
     }
 
     fn early_exit(&self) {
-        self.counter().store(self.range.end.into())
+        // the counter holds positions, not values: the end *position* is the length of the range
+        self.counter().store(self.initial_len())
     }
 }
 
